@@ -80,6 +80,27 @@ theorem growth_rate_EdS_ne_one (hO : ρ "cosmo.Om0" = 1) (hL : ρ "cosmo.Ode0" =
   rw [growth_rate_EdS_value opq ρ hO hL hz.le hOm hOde]
   intro h; nlinarith
 
+/-! ## GenMFGrowth (port of the `genmf` closed forms) -/
+
+/-- C09: Einstein–de Sitter (Ωm = 1): the GenMF model returns D(z) = 1/(1+z) exactly, so (1+z)·D(z) = 1 and D(0) = 1 -/
+theorem genmf_EdS (hO : ρ "cosmo.Om0" = 1) :
+    evalR opq ρ Gen.Growth.GenMFGrowth_growth_factor = 1 / (1 + ρ "z") := by
+  simp only [Gen.Growth.GenMFGrowth_growth_factor]; expr_unfold; push_cast
+  simp [hO]
+
+/-- C09: open models without a cosmological constant (Ωm ≠ 1, ΩΛ ≤ 0): growth_factor(0) = 1 — the closed form at z = 0 is its own
+    normalisation, whatever the (non-zero) value of that normalisation -/
+theorem genmf_open_growth_at_zero (hO : ρ "cosmo.Om0" ≠ 1) (hL : ρ "cosmo.Ode0" ≤ 0) (hz : ρ "z" = 0)
+    (hden : evalR opq ρ Gen.Growth.GenMFGrowth_growth_factor ≠ 0) :
+    evalR opq ρ Gen.Growth.GenMFGrowth_growth_factor = 1 := by
+  revert hden
+  simp only [Gen.Growth.GenMFGrowth_growth_factor]; expr_unfold; push_cast
+  have h1 : ¬ (ρ "cosmo.Om0" = 1 * 10 ^ (0:ℤ)) := by simpa using hO
+  have h2 : ¬ (0 * 10 ^ (0:ℤ) < ρ "cosmo.Ode0") := by simpa using not_lt.mpr hL
+  simp only [decide_eq_true_eq, h1, h2, if_false, hz]
+  norm_num
+  all_goals (intro hden; exact div_self (fun h => hden (by rw [h]; simp)))
+
 /-- Transfer.growth_factor evaluates the selected model at the object's z for either setting of the spline option -/
 theorem transfer_growth_dispatch :
     evalR opq ρ Gen.Flow.Transfer_growth_factor =
